@@ -112,6 +112,9 @@ func (e *Engine) tm(st *State) *threadState {
 		if e.cfg.Ticks > 0 {
 			ticks = e.cfg.Ticks
 		}
+		if e.cfg.Ticks < 0 {
+			ticks = 0
+		}
 		st.tm = &threadState{ticks: ticks, lockW: map[lockID][]int{}, lockR: map[lockID][]int{}, chanVC: map[int][]int{},
 			wg: map[lockID]int{}, wgVC: map[lockID][]int{}, acc: map[int][]accEntry{}}
 		st.threads[0].tick()
@@ -143,6 +146,9 @@ func (e *Engine) runnable(st *State, th *Thread) bool {
 	case 3:
 		return e.tm(st).wg[th.waitLock] <= 0
 	case 4:
+		if th.timerDue {
+			return true
+		}
 		for _, w := range th.waitChans {
 			if e.chanReady(st, w) {
 				return true
@@ -194,6 +200,16 @@ func (e *Engine) schedule(st *State) bool {
 			cand = append(cand, i)
 		}
 	}
+	if len(cand) == 0 && tm.ticks > 0 {
+		// nothing can run: a pending timer of a waiting select fires (lowest thread first; one per round)
+		for i, t := range st.threads {
+			if !t.done && t.blocked != "" && t.waitTimer {
+				t.timerDue = true
+				cand = append(cand, i)
+				break
+			}
+		}
+	}
 	if len(cand) == 0 {
 		var stuck []string
 		first := -1
@@ -239,6 +255,9 @@ func (e *Engine) schedule(st *State) bool {
 	tm.sw = false
 	st.cur = k
 	st.threads[k].blocked = ""
+	if !st.threads[k].timerDue {
+		st.threads[k].waitTimer = false
+	}
 	return true
 }
 
